@@ -294,6 +294,9 @@ func runC18(c *Ctx) {
 	c.failerRule("R18.6")
 	c.enqueueRule("R18.6")
 	c.cleanupCannotBlock("R18.6")
+	c.inflightRemovalRule("R18.6")
+	c.rule("R18.7", "calls on a closed or closing client end: a request is re-sent only on the wire's temporary-connection code, never on a local send error")
+	c.retryGateRule("R18.7")
 }
 
 // isLoopCtxRoot: v is the context returned by the context.WithCancel in the connection loop whose cancel is deferred there.
